@@ -52,10 +52,10 @@ CHECKS = {
         thorough=dict(procs=32, checks=1500, timeout=2400, fuzz=dict(target="FuzzDecode", secs=120)),
         mem_gb=6,
         rule="rapid draws (type, valid or wire-edited message, mutation list); per case up to 10 drawn mutations (prefix, byte, length/count field from a hostile set, splice, insert, delete, random) and, for messages <=160 bytes, "
-             "EVERY prefix, every length/count field x 11 hostile values and every type-code byte x 15 codes; each input is one evaluation; non-trivial = verdict is not ok and the model got past the first field or into a container; distinct by hash(type signature, input bytes)",
-        technique="property-based testing / structured fuzzing (rapid): mutation of valid messages, three-valued reference classifier (well-formed / malformed / open), allocation-delta and crash oracles in an isolated worker with an address-space cap",
+             "EVERY prefix, every length/count field x 11 hostile values and every type-code byte x 15 codes; one case in ten is instead a time-scaling measurement of one of 20 input families (classes scale:*); each input is one evaluation; non-trivial = verdict is not ok and the model got past the first field or into a container; distinct by hash(type signature, input bytes)",
+        technique="property-based testing / structured fuzzing (rapid): mutation of valid messages, three-valued reference classifier (well-formed / malformed / open), allocation-delta and crash oracles in an isolated worker with an address-space cap; metamorphic CPU-time scaling relation (n vs 16n) over parameterised input families",
         level_text="Structured mutation fuzzing against a three-valued reference classifier: success iff well-formed (value and n compared), error iff malformed, no panic/fault/worker death, TotalAlloc delta <= 1 MiB + K(T)*len(input), input buffer unmodified. Worker deaths are replayed from a one-case journal.",
-        level_note="'Time proportional to input' is only decided as termination (driver timeout); allocation is measured with GC off in a single goroutine after a warm-up use of the type; native coverage-guided fuzzing is a separate thorough-tier step.",
+        level_note="'Time proportional to input' is decided as termination (driver timeout) and, for 20 families of inputs parameterised by a size n (thousands of unknown / repeated / mismatching fields, lists, sets and maps of every element shape, huge strings, empty inner lists, skipped containers; whole or cut to k/8), by a metamorphic CPU-time relation: thread CPU time (CLOCK_THREAD_CPUTIME_ID, collector off, minimum of 3) at 16n must not exceed 160x that at n (proportional: 12-20x, Go maps outgrowing the caches up to ~70x, quadratic 256x) in three measurements spread over two seconds and then 8x in each half n->4n->16n; inputs too fast to measure are counted and skipped. Anything between n^1 and n^2 is not decided. Allocation is measured with GC off in a single goroutine after a warm-up use of the type; native coverage-guided fuzzing is a separate thorough-tier step.",
     ),
     "C09": dict(
         test="TestC09",
